@@ -2,7 +2,7 @@
 import props.catalog_all  # noqa: F401
 from vlib import harness as H
 from vlib.runner import run_property
-from props.common import (cell_obligations, rot, seed, COMMON_ASSUMPTIONS,
+from props.common import (cell_obligations, select_cells, rot, seed, COMMON_ASSUMPTIONS,
                           REAL_FUNCTIONS)
 from props import findings
 
@@ -13,7 +13,8 @@ def check_call(cell, cfg, args):
 
 
 def generate(tier):
-    cells = [c for c in H.CATALOG.values() if 'resume' not in c.tags]
+    cells = select_cells('C08', tier, [c for c in H.CATALOG.values()
+                                       if 'resume' not in c.tags], 4)
     if tier == 'quick':
         cfgs = lambda c: ['O%d' % rot(c.cid, seed() + 8, 3)]  # noqa: E731
         timeout = 90
